@@ -454,6 +454,8 @@ def case_cost(which, src, start, period, voltages, rates, aware=None, explicit=F
         sim, cerr = make_sim(None if explicit else src, start, period, len(rates[0]) if rates else 0, voltages, aware, rates,
                              ids=ids, scheduler=sched, int_rates=int_rates)
         if sim is not None and reload:
+            # (Simulator.to_json writes the start with strftime("%d%m%Y"): years below 1000 are not zero-padded by glibc
+            #  and from_json then fails — serialisation is C09's subject; reload cases use years >= 1000)
             from acnportal.acnsim import Simulator
             sim = Simulator.from_json(sim.to_json())
     if explicit:
@@ -880,7 +882,7 @@ def bundled_random_case(rng, names):
         rates = [[float(int(v)) for v in row] for row in rates]
     return case_cost(rng.choice(["energy", "energy", "demand"]), src, t, period, voltages, rates, aware,
                      explicit=rng.random() < 0.3, ids=rng.choice([None, rng.choice(ODD_IDS)[:ns]]), int_rates=int_rates,
-                     reload=ncol > 0 and rng.random() < 0.12)
+                     reload=ncol > 0 and dt_of(t).year >= 1000 and rng.random() < 0.12)
 
 
 def finite_check_cases():
